@@ -144,7 +144,8 @@ class PersistentVector(
         return self._inner[item]
 
     def __hash__(self):
-        return hash(self._inner)
+        # must agree with ISeq.__hash__: equal sequential collections hash alike
+        return hash(tuple(self))
 
     def __iter__(self):
         yield from self._inner
